@@ -23,6 +23,9 @@ type caseC06 struct {
 	Dust     string       `json:"dust,omitempty"`
 	// Paused is an action kind ("fee" | "swap") the authority pauses before the packet arrives.
 	Paused string `json:"paused,omitempty"`
+	// Crossed marks a Hyperlane route that names the token of another denomination than the one
+	// the last action leaves: it must be refused.
+	Crossed bool `json:"crossed,omitempty"`
 }
 
 func runC06(l *world.Lab, c caseC06, rec *kit.Recorder) error {
@@ -102,6 +105,20 @@ func runC06(l *world.Lab, c caseC06, rec *kit.Recorder) error {
 	}
 	if c.Paused != "" && seen[c.Paused] {
 		mustRefuse, why = "paused action", c.Paused+" is paused"
+	}
+	if c.Crossed && mustRefuse == "" {
+		// the forwarding step would send another denomination than the one the last action left;
+		// if a request reached the bridge at all, its token is checked below like any other
+		for _, call := range bridgeCalls(s) {
+			if err := checkRequest(t, run, call); err != nil {
+				return fmt.Errorf("order [%s]: %w", order, err)
+			}
+		}
+		rec.Label("c06", "route names another denomination's token")
+		if out.Success {
+			return fmt.Errorf("order [%s]: the route names the Hyperlane token of another denomination than %s, yet the transfer was acknowledged as a success", order, run.Denom)
+		}
+		return nil
 	}
 	if mustRefuse != "" {
 		rec.Label("c06", mustRefuse+" in the list")
@@ -260,7 +277,12 @@ func genC06(t *rapid.T, l *world.Lab) caseC06 {
 	if tr.Route.Kind == "cctp" && amt.Cmp(big.NewInt(world.BurnLimit)) > 0 {
 		tr.Route = kit.Route{Kind: "internal", To: kit.PlainUser(t, "to")}
 	}
-	c := caseC06{Transfer: tr}
+	crossed := false
+	if _, has := w.HypToken[running]; (has || running == world.SwapDenom) && kit.Chance(t, "crossed", 8) {
+		tr.Route, _ = kit.CrossedTokenRoute(t, w, "crossed", running)
+		crossed = true
+	}
+	c := caseC06{Transfer: tr, Crossed: crossed}
 	if kit.Chance(t, "dust", 25) && denom != world.Uhuge {
 		c.Dust = "777"
 	}
